@@ -1,10 +1,16 @@
+/* LD_PRELOAD interposer: std's RandomState takes its per-thread keys from getrandom();
+ * this makes them a function of VERIF_HASH_SEED (or of verif_seed_override once set). */
 #define _GNU_SOURCE
 #include <stddef.h>
 #include <stdlib.h>
 #include <sys/types.h>
+volatile unsigned long long verif_seed_override = 0;
+volatile int verif_seed_set = 0;
 ssize_t getrandom(void *buf, size_t len, unsigned int flags) {
-  const char *s = getenv("VERIF_HASH_SEED");
-  unsigned long long seed = s ? strtoull(s, 0, 10) : 0;
+  (void)flags;
+  unsigned long long seed;
+  if (verif_seed_set) seed = verif_seed_override;
+  else { const char *s = getenv("VERIF_HASH_SEED"); seed = s ? strtoull(s, 0, 10) : 0; }
   unsigned char *p = buf;
   for (size_t i = 0; i < len; i++) { seed = seed * 6364136223846793005ULL + 1442695040888963407ULL; p[i] = (unsigned char)(seed >> 33); }
   return (ssize_t)len;
